@@ -279,8 +279,11 @@ pub fn skeletons(max_items: usize) -> Vec<Skel> {
 /// Valid identifiers of the pool (`é` is accepted since the lexer fix)
 pub const VALID: [&str; 4] = ["a", "b", "T", "é"];
 /// Names that are not valid non-keyword identifiers: keyword, starts with a
-/// digit, two tokens, empty, identifier followed by a blank
-pub const INVALID: [&str; 5] = ["accept", "1x", "a b", "", "a "];
+/// digit, two tokens, empty, identifier followed by a blank; and (seeded change
+/// C18-6) words that are made of identifier characters but are not ONE identifier
+/// token, so that no script could ever name the item: an AS number literal, an AS
+/// number literal followed by an identifier, a boolean literal
+pub const INVALID: [&str; 8] = ["accept", "1x", "a b", "", "a ", "AS1", "AS4_PATH", "true"];
 
 #[derive(Clone, Copy, Debug, PartialEq, Eq)]
 pub enum NameRef {
